@@ -9,3 +9,6 @@ TRUSTED = ["hand-written Lean models, checked against the code on every run", "S
 
 def run(rep, tier, seed, replay=None):
     decode_generic.run("C05", rep, tier, seed, replay)
+    if replay is None:
+        from props.families import quake
+        quake.finding_probes(rep)
